@@ -186,6 +186,12 @@ func renderD(o slip.Object, depth int) string {
 	case slip.Funky:
 		// reader macros ('x `x ,x #'x) and compiled calls: as the list they stand for
 		parts := []string{strings.ToLower(t.GetName())}
+		if t.GetName() == "" {
+			// ((lambda (x) ...) args): the head is the lambda the call object holds
+			if lam, ok := t.Caller().(*slip.Lambda); ok {
+				parts[0] = render(lam.LoadForm())
+			}
+		}
 		for _, a := range t.GetArgs() {
 			parts = append(parts, render(a))
 		}
